@@ -515,6 +515,69 @@ func docWalkFacts(p *pkgInfo) []docWalkFact {
 	return out
 }
 
+// ------------------------------------------------------------ writes of a validator to itself while validating
+
+// selfWriteFact: an assignment through the receiver inside a Validate/validate*/Applies method
+type selfWriteFact struct {
+	Func, Lhs string
+	Guarded   bool // inside `if …recycleValidators { … }` (or a deferred function under it)
+}
+
+func selfWriteFacts(p *pkgInfo) []selfWriteFact {
+	var out []selfWriteFact
+	fns := p.funcs()
+	keys := make([]string, 0, len(fns))
+	for k := range fns {
+		keys = append(keys, k)
+	}
+	sort.Strings(keys)
+	for _, k := range keys {
+		fd := fns[k]
+		if fd.Body == nil || fd.Recv == nil || len(fd.Recv.List) == 0 || len(fd.Recv.List[0].Names) == 0 {
+			continue
+		}
+		nm := fd.Name.Name
+		if !(nm == "Validate" || strings.HasPrefix(nm, "validate") || nm == "Applies") {
+			continue
+		}
+		recv := fd.Recv.List[0].Names[0].Name
+		var walk func(n ast.Node, guarded bool)
+		walk = func(n ast.Node, guarded bool) {
+			ast.Inspect(n, func(m ast.Node) bool {
+				switch x := m.(type) {
+				case *ast.IfStmt:
+					if m != n && strings.Contains(p.src(x.Cond), "recycleValidators") && !strings.Contains(p.src(x.Cond), "!") {
+						if x.Init != nil {
+							walk(x.Init, guarded)
+						}
+						walk(x.Body, true)
+						if x.Else != nil {
+							walk(x.Else, guarded)
+						}
+						return false
+					}
+				case *ast.AssignStmt:
+					for _, l := range x.Lhs {
+						if _, isIdent := l.(*ast.Ident); isIdent {
+							continue
+						}
+						if rootIdent(l) == recv {
+							out = append(out, selfWriteFact{Func: k, Lhs: p.src(l), Guarded: guarded})
+						}
+					}
+				case *ast.IncDecStmt:
+					if _, isIdent := x.X.(*ast.Ident); !isIdent && rootIdent(x.X) == recv {
+						out = append(out, selfWriteFact{Func: k, Lhs: p.src(x.X), Guarded: guarded})
+					}
+				}
+				return true
+			})
+		}
+		walk(fd.Body, false)
+	}
+	return out
+}
+
 // ------------------------------------------------------------ rendering
 
 func genFacts(p *pkgInfo) string {
@@ -566,6 +629,17 @@ func genFacts(p *pkgInfo) string {
 	for i, f := range dws {
 		fmt.Fprintf(&b, "  (%s, %s, %s)", leanStr(f.Func), leanStr(f.Callee), leanBool(f.Scratch))
 		if i < len(dws)-1 {
+			b.WriteString(",")
+		}
+		b.WriteString("\n")
+	}
+	b.WriteString("]\n\n")
+	b.WriteString("/-- assignments through the receiver inside Validate/validate*/Applies methods: (method, left-hand side, under the recycling guard) -/\n")
+	b.WriteString("def selfWrites : List (String × String × Bool) := [\n")
+	sws := selfWriteFacts(p)
+	for i, f := range sws {
+		fmt.Fprintf(&b, "  (%s, %s, %s)", leanStr(f.Func), leanStr(f.Lhs), leanBool(f.Guarded))
+		if i < len(sws)-1 {
 			b.WriteString(",")
 		}
 		b.WriteString("\n")
